@@ -92,7 +92,7 @@ def random_prog(rng, depth=0, maxdepth=6, budget=None, p_throw=0.22):
     return out
 
 
-def deep_prog(rng, depth):
+def deep_prog(rng, depth, wrap=None):
     """a chain of `depth` try blocks open at the same time (below the runtime's 2048): the innermost body throws; most
     filters do not match, some handlers re-throw another kind, so the exception climbs through many levels"""
     e = rng.randint(1, 3)
@@ -109,7 +109,9 @@ def deep_prog(rng, depth):
             mask, handler = rng.choice([1, 2, 4]), []
         body = [{"t": "M"}] + inner + ([{"t": "M"}] if rng.random() < 0.3 else [])
         inner = [{"t": "T", "mask": mask, "body": body, "handler": handler}]
-    return [{"t": "T", "mask": 0, "body": inner, "handler": [{"t": "M"}]}] if rng.random() < 0.8 else inner
+    if wrap is None:
+        wrap = rng.random() < 0.8
+    return [{"t": "T", "mask": 0, "body": inner, "handler": [{"t": "M"}]}] if wrap else inner
 
 
 KN = {1: "TypeError", 2: "ValueError", 3: "KeyError"}
